@@ -153,9 +153,7 @@ func run(root *memfs.Node, c cfgT, faults map[string]error) result {
 	}
 	cfg := &scalibr.ScanConfig{FilesystemExtractors: exs, Capabilities: &plugin.Capabilities{}, ScanRoots: []*scalibrfs.ScanRoot{{FS: m, Path: ""}},
 		MaxFileSize: c.MaxSize, ErrorOnFSErrors: c.Fatal}
-	if rp := requested(root, c); rp != "" {
-		cfg.PathsToExtract = []string{rp}
-	}
+	cfg.PathsToExtract = requestedAll(root, c)
 	var sr *scalibr.ScanResult
 	p, stack := ev.Recover(func() { sr = scalibr.New().Scan(context.Background(), cfg) })
 	if p != nil {
@@ -177,7 +175,41 @@ func run(root *memfs.Node, c cfgT, faults map[string]error) result {
 	return res
 }
 
-// requested returns the path put into PathsToExtract for this config ("" = none / not applicable).
+// requestedAll returns PathsToExtract for this config: one path for "dir"/"file", two for
+// "dir+file" / "file+dir" (first directory and first required file OUTSIDE that directory).
+func requestedAll(root *memfs.Node, c cfgT) []string {
+	if c.Paths == "" {
+		return nil
+	}
+	d := requested(root, cfgT{Paths: "dir"})
+	f := ""
+	memfs.Walk(root, func(p string, nd *memfs.Node) {
+		if f == "" && nd.Kind == memfs.File && nd.Name != "junk" && (d == "" || !under(p, d)) {
+			f = p
+		}
+	})
+	switch c.Paths {
+	case "dir":
+		if d != "" {
+			return []string{d}
+		}
+	case "file":
+		if r := requested(root, c); r != "" {
+			return []string{r}
+		}
+	case "dir+file":
+		if d != "" && f != "" {
+			return []string{d, f}
+		}
+	case "file+dir":
+		if d != "" && f != "" {
+			return []string{f, d}
+		}
+	}
+	return nil
+}
+
+// requested returns the single path put into PathsToExtract for the kinds "dir" and "file".
 func requested(root *memfs.Node, c cfgT) string {
 	out := ""
 	memfs.Walk(root, func(p string, nd *memfs.Node) {
@@ -192,6 +224,15 @@ func requested(root *memfs.Node, c cfgT) string {
 		}
 	})
 	return out
+}
+
+func inList(l []string, p string) bool {
+	for _, x := range l {
+		if x == p {
+			return true
+		}
+	}
+	return false
 }
 
 func under(p, dir string) bool {
@@ -256,15 +297,15 @@ func verdict(root *memfs.Node, c cfgT, ref, got result, fs []fault) (key, detail
 		case op == "stat" && p == ".":
 			traversal = true
 			exemptDirs = append(exemptDirs, ".")
-		case op == "stat" && p == requested(root, c) && isDir(root, p):
+		case op == "stat" && inList(requestedAll(root, c), p) && isDir(root, p):
 			// stat of an explicitly requested directory (by walkIndividualPaths, then by the walker)
 			traversal = true
 			exemptDirs = append(exemptDirs, p)
-		case op == "stat" && p == requested(root, c) && occ == "0":
+		case op == "stat" && inList(requestedAll(root, c), p) && occ == "0":
 			// the stat walkIndividualPaths does on an explicitly requested file
 			traversal = true
 			exemptFiles[p] = true
-		case (op == "open" || op == "readdir" || op == "readdirfs" || op == "fstat") && isDir(root, p):
+		case (op == "open" || op == "readdir" || op == "readdirfs" || op == "readdirfs-mid" || op == "fstat") && isDir(root, p):
 			traversal = true
 			exemptDirs = append(exemptDirs, p)
 		case op == "stat":
@@ -455,6 +496,9 @@ func main() {
 					cfgs = append(cfgs, cfgT{fatal, ms, nordf, es, ""})
 					if !nordf {
 						cfgs = append(cfgs, cfgT{fatal, ms, nordf, es, "dir"}, cfgT{fatal, ms, nordf, es, "file"})
+						if es == 0 {
+							cfgs = append(cfgs, cfgT{fatal, ms, nordf, es, "dir+file"}, cfgT{fatal, ms, nordf, es, "file+dir"})
+						}
 					}
 				}
 			}
@@ -479,7 +523,7 @@ func main() {
 			root := trees[i]
 			ts := root.String()
 			for _, c := range cfgs {
-				if c.Paths != "" && requested(root, c) == "" {
+				if c.Paths != "" && requestedAll(root, c) == nil {
 					continue
 				}
 				ref := run(root, c, nil)
@@ -539,5 +583,5 @@ func main() {
 	r.Set("bound", map[string]any{"single_faults_complete_up_to_nodes": completed, "fault_pairs_complete_up_to_nodes": completedPairs, "configs": len(cfgs)})
 	r.Assume("memfs numbers every FS operation of a scan deterministically; a fault is identified by (operation, path, occurrence)")
 	r.Assume("UseGitignore stays off: the property's quantifier lists the operation sites of the plain walk")
-	r.Finish(fmt.Sprintf("every tree with <=%d nodes holding >=1 required file (dirs a,b; p1.txt, p2.txt (required by 2 extractors), x.bin (exec, predicate calls Stat), junk) x {ErrorOnFSErrors} x {MaxFileSize 0,100} x {ReadDirFile, fallback} x 2 extractor sets x {whole-tree walk, explicitly requested directory, explicitly requested file}: every single fault = every operation site of the fault-free run x {permission, I/O, not-exist}; every pair of sites (trees <=%d nodes) with 3 kind combinations; each faulted Scan compared with the fault-free Scan. non-trivial = runs in which every injected fault was actually reached (a first fault can mask the second)", maxNodes, pairNodes), completed == maxNodes)
+	r.Finish(fmt.Sprintf("every tree with <=%d nodes holding >=1 required file (dirs a,b; p1.txt, p2.txt (required by 2 extractors), x.bin (exec, predicate calls Stat), junk) x {ErrorOnFSErrors} x {MaxFileSize 0,100} x {ReadDirFile, fallback} x 2 extractor sets x {whole-tree walk, explicitly requested directory, explicitly requested file, directory then file, file then directory}: every single fault = every operation site of the fault-free run x {permission, I/O, not-exist}; every pair of sites (trees <=%d nodes) with 3 kind combinations; each faulted Scan compared with the fault-free Scan. non-trivial = runs in which every injected fault was actually reached (a first fault can mask the second)", maxNodes, pairNodes), completed == maxNodes)
 }
